@@ -54,6 +54,7 @@ type GenOpts struct {
 	PAuto       float64  // probability that -auto-instrument applies (package level)
 	PShadow     float64  // probability that the enclosing function shadows generated identifiers
 	PBare       float64  // probability that argument values are passed as bare identifiers named like generated ones
+	PNamedBool  float64  // probability that a predicate returns a declared boolean type (free verdict; E-GEN only)
 }
 
 // DefaultOpts is the broad mixture.
@@ -190,6 +191,7 @@ func GenFlow(t *rapid.T, name string, o GenOpts) *rt.Spec {
 			unit++
 			ps.In = pickIn(2, false)
 			ps.Ctx = prob(t, "predctx", 0.4)
+			ps.NamedBool = prob(t, "prednamedbool", o.PNamedBool)
 			ts.Pred = ps
 			for _, x := range ps.In {
 				consumed[x.Key()] = true
